@@ -45,7 +45,7 @@ def ctx_c(name):
 def run_drv(exe, args):
     env = dict(os.environ)
     env.update(cbuild.SAN_ENV)
-    r = subprocess.run([exe] + [str(a) for a in args], capture_output=True, text=True, env=env)
+    r = cbuild.run_bounded([exe] + [str(a) for a in args], env=env)
     return r
 
 
